@@ -96,6 +96,8 @@ MUTANTS = [
      "    shutil.rmtree(path, onerror=retry)\n", "    shutil.rmtree(path, ignore_errors=True)\n", ["C13"]),
     ("revert-D31-serialize-oserror", "execution/ops/run_task_executable.py",
      "            except OSError as ex:\n                # E.g., the task removed its own output directory.", "            except ZeroDivisionError as ex:\n                # E.g., the task removed its own output directory.", ["C03"]),
+    ("revert-D32-abort-in-include", "parsing/task_loader.py",
+     "        except ConductorAbort:\n            # The user interrupted Conductor while the included file was", "        except ZeroDivisionError:\n            # The user interrupted Conductor while the included file was", ["C16"]),
     ("loader-no-dup-check", "parsing/task_index.py",
      "                    if dep_identifier in task_deps_set:\n", "                    if dep_identifier in task_deps_set and len(task_deps) > 2:\n", ["C14"]),
 ]
